@@ -53,6 +53,12 @@ KIND_TARGETS = [
     (kinds.WithMethods.smake, {'WithMethods.smake'}), (kinds.partial_plain, {'target3'}),
     (kinds.partial_kw, {'target3'}), (kinds.partial_nested, {'target3'}),
     (kinds.callable_instance, {'CallableInstance:ci'}), (kinds.target3, {'target3'}),
+    # one function as plain function (self = first positional) and as bound method (self
+    # stripped), in one process and in both orders; inherited bound classmethods
+    (kinds.Meth.apply, {'Meth.apply'}), (kinds.meth_instance.apply, {'Meth.apply'}),
+    (kinds.meth_instance2.apply, {'Meth.apply'}), (kinds.Meth.two_required, {'Meth.two_required'}),
+    (kinds.meth_instance.two_required, {'Meth.two_required'}),
+    (kinds.Meth.cmake, {'Meth.cmake'}), (kinds.MethSub.cmake, {'Meth.cmake'}),
 ] + [(f, {f.__name__}) for f in sigs.WIDE]
 
 
@@ -105,6 +111,8 @@ class Values:
             lambda n: gen.Seq('point', [n, gen.Leaf(1)]),
         ])(node)
       self.shared.append(node)
+    elif r > 0.9:
+      node = gen.Leaf(rng.choice(gen.TWIN_LEAVES))     # equal-but-distinguishable constants
     else:
       node = gen.Leaf(Sentinel(next(self.cnt)))
     fv = gen.to_fiddle(node, self.fmemo)
@@ -394,8 +402,9 @@ def run_kinds(spec, acc):
 
 
 def run_dag(spec, acc):
-  for _, rng in acc.cases(spec):
-    opts = gen.Opts(max_nodes=rng.choice([4, 8, 14]), lattice=0.3)
+  for i, rng in acc.cases(spec):
+    opts = gen.Opts(max_nodes=rng.choice([4, 8, 14]), lattice=0.3,
+                    leaves=gen.LEAF_POOL + gen.TWIN_LEAVES * (3 if i % 3 == 0 else 1))
     g = gen.DagGen(rng, opts)
     root = g.dag()
     if rng.random() < 0.3:
